@@ -36,6 +36,7 @@ Table(b, e) ==
           IF \E o \in 1..Len(e.over) : e.over[o][1] = k
           THEN e.over[CHOOSE o \in 1..Len(e.over) : e.over[o][1] = k][2]
           ELSE b.dict[b.tab[k]]]
+       \o (IF HasKey(e, "ext") THEN e.ext ELSE << >>)     \* witnesses allocated after the base table
 
 Wiring(b, e) == IF HasKey(e, "iw") THEN e.iw ELSE b.cls
 
